@@ -74,8 +74,9 @@ def run(rep, tier, driver):
             # a residue written with a second sugar name directly behind the first ('ManUnk', 'GlcGal'): the grammar takes it as one
             # residue, the second name is not a chain-length name and cannot be realised
             old = victim.name
-            if re.fullmatch(r"[A-Z][a-z]+", old):
-                victim.name = old + rng.choice(["Unk", "Unk", "Gal", "Man", "Suc", "Fuc"])
+            # only behind a bare sugar code (after a ring letter 'Suc' is the succinyl group, a realisable modification)
+            if old in vocab.sac and not old.endswith(("f", "p")):
+                victim.name = old + rng.choice(["Unk", "Unk", "Gal", "Man", "Fuc", "Xyl"])
                 if victim.name not in ("GalMan",):
                     variant = gen.render(t, "full")
                 victim.name = old
